@@ -35,6 +35,7 @@ kern.jax = type("J", (), {"lax": type("L", (), {"cond": staticmethod(lambda p, t
 
 TYPES = tuple(int(x) for x in os.environ.get("TYPES", "1,3,4").split(","))
 NK = int(os.environ.get("NK", "2"))
+WERR = os.environ.get("WERR", "")          # identifier of a kernel whose end_warmup returns a non-zero error code ("" = none)
 LOG: list = []
 
 
@@ -104,7 +105,7 @@ class RecKernel(ModelMixin, TransitionMixin, TuningMixin):
 
     def end_warmup(self, key, ks, ms, th):
         LOG.append(("end_warmup", self.identifier, None, None, None, key.t, None))
-        return WarmupOutcome(0, ks)
+        return WarmupOutcome(7 if self.identifier == WERR else 0, ks)      # a kernel may report a warmup error code: the lifecycle is the same
 
 
 class RecGenerator:
